@@ -646,7 +646,25 @@ pub fn run_batch<E: Engine>(e: &E, o: &Opts) -> Outcome {
         // re-execute the minimised case once more before reporting
         let mut st = Stats::default();
         let again = guarded(e, &slots[o.threads.max(1)], *run, &mcase, &mut st, &o.work);
-        let reproduced = again.as_ref().map(|a| a.signature() == sig).unwrap_or(false);
+        let mut reproduced = again.as_ref().map(|a| a.signature() == sig).unwrap_or(false);
+        let (mut mcase, mut mv) = (mcase, mv);
+        if !reproduced {
+            // the minimised case does not fail any more (e.g. a violation that depends on OS-provided hasher keys):
+            // fall back to the case as generated and give it three attempts
+            let orig = e.generate(o.seed, *run);
+            for _ in 0..3 {
+                let mut st = Stats::default();
+                if let Some(v2) = guarded(e, &slots[o.threads.max(1)], *run, &orig, &mut st, &o.work) {
+                    if v2.signature() == sig {
+                        mcase = orig.clone();
+                        mv = v2;
+                        reproduced = true;
+                        break;
+                    }
+                }
+            }
+        }
+        let path = if reproduced { write_replay(e, o, *run, &mcase, &mv, before) } else { path };
         println!(
             "violation: property={} engine={} class={} site={} run={} op={} runs_affected={} minimised {}→{} bytes in {} execs reproduced={} detail={}",
             e.property(),
